@@ -6,7 +6,7 @@
     in the composition theorems the handler is ANY script and the chain ANY list.
     [repaired] = the code after the two fix: commits, [pinned] = before (D2, D3). *)
 From WM Require Import Base.Prelude Simple.Model Simple.Monitor Simple.Throttle
-  Simple.ThrottleCtx Simple.Proofs Simple.ThrottleProofs Simple.ThrottleCtxProofs Simple.DelayProofs Simple.ComposeProofs Simple.AcceptProofs Simple.Deadline Simple.DeadlineProofs.
+  Simple.ThrottleCtx Simple.Proofs Simple.ThrottleProofs Simple.ThrottleCtxProofs Simple.DelayProofs Simple.ComposeProofs Simple.AcceptProofs Simple.Deadline Simple.DeadlineProofs Corr.C19 Simple.ChainAcceptProofs.
 
 (** Timeout: the result is the handler's; during the call ... *)
 Theorem C19_timeout_transparent : forall d (h : handler) w,
@@ -262,7 +262,21 @@ Theorem C19_arriving_deadline : forall mws s w, forallb is_simple mws = true ->
   /\ v_deadline (view (w_msg (fst (stack repaired mws (scripted s) w)))) = v_deadline (view (w_msg w)).
 Proof. exact arriving_deadline. Qed.
 
+(** the acceptor the check evaluates on a whole case (Corr/C19.v [accept_invs] = [accept] on every
+    invocation of the chain on the same message object, each judged from the message as it was
+    observed before it) accepts every run of the repaired model: every chain (any length, any
+    order, Retry anywhere), every script, every message on its original context, every number of
+    invocations.  With this the chain acceptor is no longer a trusted oracle. *)
+Theorem C19_chain_model_accepted : forall mws s m0 n, m_ctx m0 = [] ->
+  accept_invs mws s (init_world m0) (model_invs (stack repaired mws (scripted s)) n (init_world m0)) = true.
+Proof. exact chain_model_accepted. Qed.
+Theorem C19_case_model_accepted : forall c, m_ctx (k_init c) = [] ->
+  c19_violates (C19 (k_mws c) (k_script c) (k_init c) (c19_model repaired c)) = false.
+Proof. exact case_model_accepted. Qed.
+
 Print Assumptions C19_timeout_transparent.
+Print Assumptions C19_chain_model_accepted.
+Print Assumptions C19_case_model_accepted.
 Print Assumptions C19_arriving_deadline.
 Print Assumptions C19_deadline_lower_bound.
 Print Assumptions C19_deadline_attempts.
